@@ -196,9 +196,14 @@ static void nonsingular_case(vf::Ctx& ctx)
     Outcome first;
     bool have_first = false;
     Spectra::BKLDLT<T> shared;
+    // the object has had an earlier life: an unrelated matrix of the same size (other pivots, other 2x2 blocks) factorized first, and again between
+    // the presentations half of the time - set_shift() of the dense wrappers re-factorizes on one object in just this way
+    const MatC other = gen(ctx, n, (int) r.range(0, 5));
+    const R osig = R(r.gauss());
     for (int uplo : {Eigen::Lower, Eigen::Upper})
         for (int order = 0; order < 2; order++)
         {
+            if ((uplo == Eigen::Lower && order == 0) || r.coin(0.5)) { shared.compute(other, r.coin() ? Eigen::Lower : Eigen::Upper, osig); ctx.count("earlier_factorizations_on_the_same_object"); }
             const int pres = (int) r.range(0, 3);
             // one factorization object serves all four presentations of this matrix (as the dense shift wrappers do on every set_shift)
             Outcome o = order == 0 ? factor_solve<MatC>(A, uplo, sigma, pres, b, &shared) : factor_solve<MatR>(A, uplo, sigma, pres, b, &shared);
